@@ -215,15 +215,23 @@ enum Rep {
     SharedVec,
     Owner,
     FrozenSplit,
+    /// the same four shared representations, but only main holds a handle (reference count exactly 1): worker
+    /// threads own nothing and reach the storage only through the shared `&Bytes`
+    PromotedSolo,
+    SharedVecSolo,
+    OwnerSolo,
+    FrozenSplitSolo,
     MutHalves,
     MutThirds,
     Static,
 }
-const BYTES_REPS: &[Rep] = &[Rep::PromEven, Rep::PromOdd, Rep::PromEvenOff, Rep::PromOddOff, Rep::Promoted, Rep::SharedVec, Rep::Owner, Rep::FrozenSplit, Rep::Static];
+const BYTES_REPS: &[Rep] = &[Rep::PromEven, Rep::PromOdd, Rep::PromEvenOff, Rep::PromOddOff, Rep::Promoted, Rep::SharedVec, Rep::Owner, Rep::FrozenSplit, Rep::Static, Rep::PromotedSolo, Rep::SharedVecSolo, Rep::OwnerSolo, Rep::FrozenSplitSolo];
 
 #[derive(Clone, Copy, Debug, PartialEq, Eq)]
 enum TOp {
     CloneRef,
+    /// is_unique() through the shared `&Bytes` (the answer is racy by nature and not judged; the accesses are)
+    IsUniqueRef,
     CloneOwn,
     Read,
     Slice,
@@ -368,6 +376,13 @@ fn run_thread(tid: usize, ops: &[TOp], mut own: Vec<Hd>, mut muts: Vec<(BytesMut
                     let h = hd(c, ctx.base, shared_off, DATA.len() - shared_off, ctx.tracked);
                     ctx.use_bytes(&h, "clone through &Bytes");
                     own.push(h);
+                }
+            }
+            TOp::IsUniqueRef => {
+                if let Some(sp) = &shared {
+                    let a: &Bytes = unsafe { &*sp.0 };
+                    let u = a.is_unique();
+                    note_outcome(tid * 4 + if u { 1 } else { 2 });
                 }
             }
             TOp::CloneOwn => {
@@ -583,21 +598,22 @@ fn run_program(p: &Program) {
             }
             main_handle = Some(a);
         }
-        Rep::Promoted | Rep::SharedVec | Rep::Owner | Rep::FrozenSplit | Rep::Static => {
+        Rep::Promoted | Rep::SharedVec | Rep::Owner | Rep::FrozenSplit | Rep::Static | Rep::PromotedSolo | Rep::SharedVecSolo | Rep::OwnerSolo | Rep::FrozenSplitSolo => {
+            let solo = matches!(p.rep, Rep::PromotedSolo | Rep::SharedVecSolo | Rep::OwnerSolo | Rep::FrozenSplitSolo);
             let a = match p.rep {
-                Rep::Promoted => {
+                Rep::Promoted | Rep::PromotedSolo => {
                     let a = Bytes::from(DATA.to_vec());
                     let c = a.clone();
                     drop(c);
                     a
                 }
-                Rep::SharedVec => {
+                Rep::SharedVec | Rep::SharedVecSolo => {
                     let mut v = Vec::with_capacity(12);
                     v.extend_from_slice(&DATA);
                     Bytes::from(v)
                 }
-                Rep::Owner => Bytes::from_owner(Owner(DATA.to_vec())),
-                Rep::FrozenSplit => {
+                Rep::Owner | Rep::OwnerSolo => Bytes::from_owner(Owner(DATA.to_vec())),
+                Rep::FrozenSplit | Rep::FrozenSplitSolo => {
                     let mut m = BytesMut::with_capacity(12);
                     m.extend_from_slice(&DATA);
                     m.extend_from_slice(&[0, 0]);
@@ -609,8 +625,10 @@ fn run_program(p: &Program) {
             };
             ctx.base = a.as_ptr() as usize;
             ctx.tracked = p.rep != Rep::Static;
-            for t in 0..nthreads {
-                own[t].push(hd(a.clone(), ctx.base, 0, 8, ctx.tracked));
+            if !solo {
+                for t in 0..nthreads {
+                    own[t].push(hd(a.clone(), ctx.base, 0, 8, ctx.tracked));
+                }
             }
             main_handle = Some(a);
         }
@@ -640,7 +658,7 @@ fn run_program(p: &Program) {
         GHOST[0].store(ctx.ghosts[0], SeqCst);
         GHOST[1].store(ctx.ghosts[1], SeqCst);
     }
-    let uses_ref = p.threads.iter().any(|t| t.contains(&TOp::CloneRef));
+    let uses_ref = p.threads.iter().any(|t| t.contains(&TOp::CloneRef) || t.contains(&TOp::IsUniqueRef));
     let sp_addr: usize = match (&main_handle, uses_ref && p.main == MainMode::Keep) {
         (Some(a), true) => a as *const Bytes as usize,
         _ => 0,
@@ -768,8 +786,8 @@ fn seqs(alpha: &[TOp], max_len: usize, first: &[TOp]) -> Vec<Vec<TOp>> {
 }
 
 fn family(set: &str) -> Vec<Program> {
-    let core = [TOp::CloneRef, TOp::Drop, TOp::TryIntoMut, TOp::IntoMut, TOp::IntoVec];
-    let full = [TOp::CloneRef, TOp::CloneOwn, TOp::Read, TOp::Slice, TOp::Drop, TOp::TryIntoMut, TOp::IntoMut, TOp::IntoVec];
+    let core = [TOp::CloneRef, TOp::IsUniqueRef, TOp::Drop, TOp::TryIntoMut, TOp::IntoMut, TOp::IntoVec];
+    let full = [TOp::CloneRef, TOp::IsUniqueRef, TOp::CloneOwn, TOp::Read, TOp::Slice, TOp::Drop, TOp::TryIntoMut, TOp::IntoMut, TOp::IntoVec];
     let mcore = [TOp::MWrite, TOp::MReserve, TOp::MTryReclaim, TOp::MGrow, TOp::MFreeze, TOp::Drop];
     let mut out = vec![];
     let (alpha, k, mains): (&[TOp], usize, &[MainMode]) = match set {
@@ -781,20 +799,21 @@ fn family(set: &str) -> Vec<Program> {
     };
     let nthreads = if set == "three" { 3 } else { 2 };
     for &rep in BYTES_REPS {
-        let unpromoted = matches!(rep, Rep::PromEven | Rep::PromOdd | Rep::PromEvenOff | Rep::PromOddOff);
+        // threads that own nothing: the unpromoted representations and the "solo" ones
+        let unpromoted = matches!(rep, Rep::PromEven | Rep::PromOdd | Rep::PromEvenOff | Rep::PromOddOff | Rep::PromotedSolo | Rep::SharedVecSolo | Rep::OwnerSolo | Rep::FrozenSplitSolo);
         for &main in mains {
             // threads of an unpromoted buffer own nothing: they must clone through the shared reference first
             if unpromoted && main != MainMode::Keep {
                 continue;
             }
-            let ss = seqs(alpha, k, if unpromoted { &[TOp::CloneRef] } else { &[] });
+            let ss = seqs(alpha, k, if unpromoted { &[TOp::CloneRef, TOp::IsUniqueRef] } else { &[] });
             if nthreads == 2 {
                 for i in 0..ss.len() {
                     for j in i..ss.len() {
                         if ss[i].is_empty() && ss[j].is_empty() {
                             continue;
                         }
-                        if main != MainMode::Keep && (ss[i].contains(&TOp::CloneRef) || ss[j].contains(&TOp::CloneRef)) {
+                        if main != MainMode::Keep && (ss[i].contains(&TOp::CloneRef) || ss[j].contains(&TOp::CloneRef) || ss[i].contains(&TOp::IsUniqueRef) || ss[j].contains(&TOp::IsUniqueRef)) {
                             continue;
                         }
                         // quick: only pairs in which both threads do something racy
@@ -811,7 +830,7 @@ fn family(set: &str) -> Vec<Program> {
                     for b in a..one.len() {
                         for c in b..one.len() {
                             let ts = vec![one[a].clone(), one[b].clone(), one[c].clone()];
-                            if main != MainMode::Keep && ts.iter().any(|t| t.contains(&TOp::CloneRef)) {
+                            if main != MainMode::Keep && ts.iter().any(|t| t.contains(&TOp::CloneRef) || t.contains(&TOp::IsUniqueRef)) {
                                 continue;
                             }
                             out.push(Program { rep, main, threads: ts });
